@@ -605,13 +605,59 @@ def run(fx, tier):
             raise AnalysisBroken('%s: no sending path found' % name)
         # request-specific fields
         if f.cls == 'publish_send_op':
-            for p_i, p in enumerate(paths):
+            for p_i, p in enumerate(op_paths(fx, f, relevant=relevant)):          # feasible paths only
                 if p.end()[0] != 'continue':
                     continue
                 names = [callee_name(it.x) for it in p.calls(*VALIDATORS)]
                 ok_topic = 'validate_topic_name' in names or 'validate_topic_alias_name' in names
                 v.check(ok_topic, 'R-FLOW', '%s:path%d:topic' % (name, p_i), 'a sending path validated the topic name',
                         key='C16:R-FLOW:publish:topic', where=f.file)
+                # ... and the verdict it went on with is exactly `valid` (a topic NAME may not contain wildcards: the validators
+                # have a third outcome, has_wildcard_character, which `!= invalid` lets through)
+                def topic_call(m):
+                    return m.get('k') in ('call', 'retof') and callee_name(m) in ('validate_topic_name', 'validate_topic_alias_name') and contains(
+                        m.get('args', m.get('e')), lambda q: q.get('k') in ('ref', 'paramof') and q.get('n') == 'topic')
+
+                def cmp_nodes(t):
+                    """(op, is-valid-enum) of every comparison of a topic-name verdict inside t"""
+                    out = []
+                    for n in Expr.walk(t):
+                        if n.get('k') == 'bin' and n.get('op') in ('==', '!='):
+                            sides = [n.get('l'), n.get('r')]
+                        elif n.get('k') == 'call' and n.get('op') in ('==', '!=') and len(n.get('args', [])) == 2:
+                            sides = n['args']
+                        else:
+                            continue
+                        if any(contains(s_, topic_call) for s_ in sides):
+                            en = [enum_of(core(s_)) or enum_of(s_) for s_ in sides]
+                            out.append((n.get('op'), 'valid' in en))
+                    return out
+                exact, loose = False, False
+                for c_ in p.conds():
+                    o_ = p.origin(c_, c_.x)
+                    if not contains(o_, topic_call):
+                        continue
+                    cm_ = p.cmp(c_)
+                    direct = cm_ and any(contains(s_, topic_call) for s_ in (cm_[1], cm_[2])) and not contains(cm_[1], lambda q: q.get('k') == 'local')
+                    if direct:
+                        en = [enum_of(core(s_)) or enum_of(s_) for s_ in (cm_[1], cm_[2])]
+                        if cm_[0] == '==' and 'valid' in en:
+                            exact = True
+                        else:
+                            loose = True
+                    else:
+                        # the verdict was stored (bool local / ternary): every comparison inside must be `== valid`, taken as true
+                        cn = cmp_nodes(o_)
+                        truth = cm_ and cm_[0] == '!=' and isinstance(unwrap(cm_[2]), dict) and unwrap(cm_[2]).get('c') == 0
+                        if cn and all(op_ == '==' and isv for op_, isv in cn) and truth:
+                            exact = True
+                        else:
+                            loose = True
+                exact = exact and not loose
+                if ok_topic:
+                    v.check(exact, 'R-FLOW', '%s:path%d:topic-exactly-valid' % (name, p_i),
+                            'the sending path established  validate_topic_(alias_)name(topic) == valid',
+                            key='C16:R-FLOW:publish:topic-exactly-valid', where=f.file)
                 if not ok_topic:
                     break
             v.check('validate_mqtt_utf8' in validated.get('param:payload', set()), 'R-FLOW', name + ':payload',
